@@ -7,6 +7,8 @@ from props.regcommon import TYPES, SIZE, BITS, checks, hexv, pat, BOUNDS, defaul
 ID = "C02"
 DRIVER = "drv_regtable"
 HARNESS = "h_regtable"
+QUICK_LEVEL = "thorough"      # the larger case set costs only seconds
+THOROUGH_SEEDS = 8
 GEN = [constants.gen]
 TIE = ['Ufw.Tie.RegTable']
 RULE = ("small-scope table family: 1-3 areas (adjacent or separated by a hole; read-write, read-only flag, write-only flag, callback-backed, "
